@@ -322,6 +322,8 @@ func c11(c *an.Check) {
 				fns = append(fns, f)
 			}
 		}
+		nND := c.NilDerefGuard("NILDEREF", "key codec: (value, error) results dereferenced only when err==nil", fns, vtSafeRecv)
+		c.Note("NILDEREF examined %d (value, error) call sites in %d key codec functions", nND, len(fns))
 		c.Totality(an.PanicSpec{Construct: "key codec totality", Funcs: fns, BCE: bce, Min: 25, Reviewed: map[string]string{
 			"(*crypto.Ed25519PrivateKey).GetPublic: bounds k.k[ed25519.PrivateKeySize - ed25519.PublicKeySize:]": "k.k always holds 64 bytes: the WHO obligation above restricts writers of k to GenerateEd25519Key (std keygen), UnmarshalEd25519PrivateKey (length-switched, decided above) and KeyPairFromStdKey (typed std keys)",
 		}})
